@@ -13,7 +13,7 @@ from ..core import ToolError
 INVS = ["BlockIffComplete", "BlockIsLeaders", "HonestCompletes", "FirstShredOnce", "BlockOnce", "InvalidOnce",
         "NoBlockAfterInvalid", "MalformedFlagged_Equivocation", "MalformedFlagged_Slice", "MalformedFlagged_Block",
         "MalformedNeverAnnounced", "MalformedFlagged_Scenario", "AnnouncedIsSane", "RefusesAfterInvalid",
-        "ServesAll", "FastPathEqualsFollower", "FastPathCompletes", "Structure"]
+        "ServesAll", "FastPathEqualsFollower", "FastPathCompletes", "Structure", "RepairSpotOnce", "RepairCompletes"]
 
 ALL_CLASSES = ["honest", "honest_switch", "conflict_content", "conflict_last_flag", "beyond_last",
                "second_last_marker", "garbage", "undecodable_txs", "no_parent", "switch_to_self", "switch_twice",
@@ -26,6 +26,7 @@ E4 = [(0, 15), (16, 31), (32, 47), (48, 63)]                 # 2-of-4: data halv
 EDGE = [(0, 30), (31, 31), (32, 62), (63, 63)]               # threshold reached by a single shred / in mid-group
 E8 = [(8 * i, 8 * i + 7) for i in range(8)]                  # 4-of-8
 E5 = [(0, 7), (8, 15), (24, 31), (32, 39), (56, 63)]         # 4-of-5, leaves real shreds undelivered
+E3 = [(0, 15), (16, 47), (48, 63)]                           # the middle group alone restores a slice
 
 
 def wrapper(blocks, classes, vias):
@@ -37,7 +38,7 @@ def wrapper(blocks, classes, vias):
     return w
 
 
-def cfg(max_n, switch_in, invariants, dump):
+def cfg(max_n, switch_in, invariants, dump, repair=False):
     s = f"""CONSTANTS
   BSlot = 5
   ParSlot <- PS
@@ -46,6 +47,7 @@ def cfg(max_n, switch_in, invariants, dump):
   MaxN = {max_n}
   Classes <- CL
   SwitchIn = {"TRUE" if switch_in else "FALSE"}
+  RepairOn = {"TRUE" if repair else "FALSE"}
   Vias <- VI
 INIT Init
 NEXT Next
@@ -60,13 +62,16 @@ CHECK_DEADLOCK FALSE
 
 
 def run_model(ctx, name, blocks, max_n, classes, switch_in=True, vias=("node", "direct"), sample=None,
-              witnesses=False, timeout=2400, workers=6):
+              witnesses=False, timeout=2400, workers=6, repair=False):
     w = wrapper(blocks, classes, vias)
     if witnesses:
-        ws = ["W_HonestDone", "W_DoneThenBad"] + [f"W_bad_{c}" for c in BAD_CLASSES
+        ws = ["W_HonestDone"] + (["W_DoneThenBad"] if any(c in BAD_CLASSES for c in classes) else [])
+        ws += [f"W_bad_{c}" for c in BAD_CLASSES
                                                   if c in classes and max_n >= MIN_SLICES.get(c, 1)]
-        ctx.witness(name, "MC_Blockstore", cfg(max_n, switch_in, [], False), w, ws, workers=2)
-    r = ctx.tlc(name, "MC_Blockstore", cfg(max_n, switch_in, INVS, True), w, workers=workers, timeout=timeout)
+        if repair:
+            ws += ["W_RepairThenDissem", "W_DissemDoneRepairPartial"]
+        ctx.witness(name, "MC_Blockstore", cfg(max_n, switch_in, [], False, repair), w, ws, workers=2)
+    r = ctx.tlc(name, "MC_Blockstore", cfg(max_n, switch_in, INVS, True, repair), w, workers=workers, timeout=timeout)
     args = ["replay-blockstore", "--tlc-out", r.out_path, "--seed", ctx.seed, "--model", name]
     if sample:
         args += ["--sample", sample]
@@ -86,6 +91,9 @@ def run_model(ctx, name, blocks, max_n, classes, switch_in=True, vias=("node", "
         need.append(f"{c}:ev:FirstShred")
         if c.startswith("honest"):
             need += [f"{c}:ev:Block", f"{c}:own-ev:Block", f"{c}:ret:dup"]
+            if repair:
+                # the repair spot completed, too, and the block was served after dissemination completed it
+                need += [f"{c}:rep-ev:FirstShred", f"{c}:rep-ev:Block", f"{c}:obs:served-after-dissemination"]
         elif c not in ("beyond_last",) or not sample:
             need.append(f"{c}:ev:InvalidBlock")
     missing = [k for k in need if not oc.get(k)]
@@ -114,7 +122,8 @@ def run_model(ctx, name, blocks, max_n, classes, switch_in=True, vias=("node", "
 def run(ctx):
     ctx.build_harness()
     ctx.assumptions += [
-        "one slot, the dissemination spot of the store (repaired blocks and pruning are not part of C13's model)",
+        "one slot: the dissemination spot and ONE repair spot (filed under the correct leader's block hash, fed with "
+        "the leader's own shreds); repairs of other hashes, hostile repair responses (C14) and pruning are not modelled",
         "shreds are delivered in fixed groups of real shred indices (ascending inside a group); the specification "
         "counts real shreds, so the 32-of-64 threshold is the real one; orders inside a group are not permuted",
         "via=node transcribes handle_disseminator_shred (validation against the cached commitment, drop on error); "
@@ -125,6 +134,8 @@ def run(ctx):
         run_model(ctx, "bs_edge", EDGE, 2, ALL_CLASSES, switch_in=False)
         run_model(ctx, "bs_n3", E4, 3, ["honest", "honest_switch", "conflict_last_flag", "beyond_last", "switch_twice",
                                         "switch_to_self"], switch_in=False, vias=("direct",))
+        # dissemination and repair of the same block interleaved
+        run_model(ctx, "bs_rep", E4, 2, ["honest", "honest_switch"], switch_in=False, vias=("direct",), repair=True)
     else:
         run_model(ctx, "bs_n2", E4, 2, ALL_CLASSES, switch_in=True, witnesses=True)
         run_model(ctx, "bs_n3", E4, 3, ALL_CLASSES, switch_in=True)
@@ -132,6 +143,8 @@ def run(ctx):
         run_model(ctx, "bs_e5", E5, 2, ["honest", "honest_switch", "conflict_content", "beyond_last", "second_last_marker",
                                         "garbage", "undecodable_txs"], switch_in=False, vias=("direct",))
         run_model(ctx, "bs_e8", E8, 1, ALL_CLASSES, switch_in=False)
+        run_model(ctx, "bs_rep", E4, 2, ["honest", "honest_switch"], switch_in=False, repair=True, witnesses=True)
+        run_model(ctx, "bs_rep3", E3, 3, ["honest", "honest_switch"], switch_in=False, vias=("direct",), repair=True)
     return ctx.finish(rule="one case = one transition (store state, signed slice, group of real shreds, ingest path) of a "
                            "scenario; scenarios: block shapes 1..3 slices with and without a parent switch, every placement "
                            "of one conflicting signed slice (content / last flag / beyond the last slice) or one malformed "
